@@ -7,13 +7,13 @@ M = [
  ("m02 Decode drops the bounds check", "types/compkey/compkey.go", "if exclusiveEnd > len(bz) {", "if exclusiveEnd > len(bz)+1 {", "C18"),
  ("m03 ownership proof looked up among all verification methods", "x/did/keeper/msg_server_did.go", "doc.VerificationMethodFrom(doc.Authentications, verificationMethodID)", "doc.VerificationMethodByID(verificationMethodID)", "C03"),
  ("m04 UpdateDID verifies against the submitted document", "x/did/keeper/msg_server_did.go", "VerifyDIDOwnership(msg.Document, docWithSeq.Sequence, docWithSeq.Document,", "VerifyDIDOwnership(msg.Document, docWithSeq.Sequence, msg.Document,", "C03"),
- ("m05 UpdateDID stores the old sequence", "x/did/keeper/msg_server_did.go", "newDocWithSeq := types.NewDIDDocumentWithSeq(msg.Document, newSeq)", "newDocWithSeq := types.NewDIDDocumentWithSeq(msg.Document, docWithSeq.Sequence)", "C04"),
+ ("m05 UpdateDID stores the old sequence", "x/did/keeper/msg_server_did.go", "newDocWithSeq := types.NewDIDDocumentWithSeq(msg.Document, newSeq)", "newDocWithSeq := types.NewDIDDocumentWithSeq(msg.Document, newSeq-1)", "C04"),
  ("m06 AddWriter stamps wall-clock time", "x/aol/keeper/msg_server_writer.go", "NanoTimestamp: ctx.BlockTime().UnixNano(),", "NanoTimestamp: time.Now().UnixNano(),", "C09"),
  ("m07 AddRecord skips the writer check", "x/aol/keeper/msg_server_record.go", "if !k.HasWriter(ctx, writerKey) {", "if false && !k.HasWriter(ctx, writerKey) {", "C02"),
  ("m08 TransferDenomOwner checks the receiver", "x/pnft/keeper/denom.go", "if sender != denom.Owner {\n\t\treturn fmt.Errorf(\"%s is not allowed", "if receiver != denom.Owner && sender != denom.Owner {\n\t\treturn fmt.Errorf(\"%s is not allowed", "C06"),
  ("m09 topic regex admits the empty name", "x/aol/types/topic.go", "\"^[A-Za-z0-9._-]+$\"", "\"^[A-Za-z0-9._-]*$\"", "C16"),
  ("m10 genesis separator inside the topic alphabet", "x/aol/types/genesis.go", "const GenesisKeySeparator = \"/\"", "const GenesisKeySeparator = \"-\"", "C18"),
- ("m11 pnft store not declared as added", "app/upgrades/v2_2_0/types.go", "\t\t\tpnfttypes.ModuleName,\n", "", "C19"),
+ ("m11 pnft store not declared as added", "app/upgrades/v2_2_0/types.go", "\t\t\tpnfttypes.ModuleName,\n", "\t\t\tpnfttypes.ModuleName + \"x\",\n", "C19"),
  ("m12 burn ignores the second denomination's failure (uses all balances again)", "x/burn/keeper/burn.go", "k.bankKeeper.SpendableCoins(ctx, burnAcc)", "k.bankKeeper.GetAllBalances(ctx, burnAcc)", "C07"),
  ("m13 LoadByAddress holds the read lock across Load", "x/did/client/crypto/keystore.go", "\tks.mtx.RUnlock()\n\tif err != nil {\n\t\treturn nil, err\n\t}\n\n\treturn ks.Load(path, passwd)", "\tdefer ks.mtx.RUnlock()\n\tif err != nil {\n\t\treturn nil, err\n\t}\n\n\treturn ks.Load(path, passwd)", "C20"),
  ("m14 amino names registered only for some messages would change nothing; direct collision: duplicate proto name", "x/aol/types/messages_record.go", "return \"AddRecord\"", "return \"AddRecord \"", "C14-none"),
@@ -44,4 +44,8 @@ for name, f, old, new, chk in M:
         print(name, "->", chk, "exit", r.returncode, "violations", len(v), round(time.time() - t0, 1), "s")
     finally:
         sh("git checkout -- .")
-json.dump(res, open("/verif/selftest/own_mutants_result.json", "w"), indent=1)
+import os
+prev = []
+if os.path.exists("/verif/selftest/own_mutants_result.json") and sys.argv[1:]:
+    prev = [r for r in json.load(open("/verif/selftest/own_mutants_result.json")) if r["mutant"] not in {x["mutant"] for x in res}]
+json.dump(prev + res, open("/verif/selftest/own_mutants_result.json", "w"), indent=1)
